@@ -138,6 +138,10 @@ def main():
             # a definite failure then counts, a success is recorded as instability, a second rlimit stays undecided
             still = []
             for fnname in sorted({d['owner'] for d in real_undecided if d['owner']}):
+                # a definite failure of the same function was already found in this run (Verus went on looking for further
+                # failures and ran out of resources doing so): the definite failure is the verdict
+                if any(d['owner'] == fnname and d['owner_kind'] == 'verify' for d in r['diags']):
+                    continue
                 seg = next((s_ for s_ in u.segments if s_['name'] == fnname and s_['kind'] == 'verify'), None)
                 if seg is None:
                     still.append(fnname); continue
@@ -154,10 +158,10 @@ def main():
                 rr = U.run_verus(u2, timeout=1500, extra=['--verify-root', '--verify-function', seg['fn'], '--rlimit', '100'])
                 checker_cmds.append(rr['cmd'])
                 defin = [d for d in rr['diags'] if d['owner'] == fnname and d['owner_kind'] == 'verify']
-                if rr['frontend_errors'] or rr['timed_out'] or [d for d in rr['undecided'] if d['owner'] == fnname]:
-                    still.append(fnname)
-                elif defin:
+                if defin:
                     r['diags'].extend(defin)
+                elif rr['frontend_errors'] or rr['timed_out'] or [d for d in rr['undecided'] if d['owner'] == fnname]:
+                    still.append(fnname)
                 else:
                     unstable.append({'unit': un, 'function': fnname, 'note': 'rlimit in the whole-unit run, verified alone with --rlimit 100'})
             if still:
